@@ -20,7 +20,7 @@ BUILD_OUT = "proj/bld"
 
 UNKNOWN_FLAGS = ["-fweird", "-Wall", "-std=c99", "-march=native", "-fPIC", "-pthread", "-Wextra"]
 UNKNOWN_COMPILERS = ["mycc", "xlc9", "tool-cc", "/opt/bin/zzcc"]
-KNOWN_COMPILERS = ["gcc", "g++", "clang", "clang++", "icx", "/usr/bin/gcc", "cc", "c++"]
+KNOWN_COMPILERS = ["gcc", "g++", "clang", "clang++", "icx", "icpx", "/usr/bin/gcc", "/opt/llvm/bin/clang++", "nvcc"]
 UNKNOWN_DIRECTIVES = ["#frobnicate x", "#ident \"v1\"", "#assert machine(x)", "#sccs \"x\"",
                       "#import_x y"]
 EXEMPT_DIRECTIVES = ["#line 7", "#warning careful", "#error never", "#"]
